@@ -183,7 +183,28 @@ def lift_token_copy():
     return {"confirmed": False}
 
 
+def lift_offsets():
+    """print_source_location with a configured location offset: the header must name
+    line + offset.line - 1 and column + (offset.column - 1 on the first source line only)."""
+    from graphql import Source
+    from graphql.language.print_location import print_source_location
+    for body in ("ab", "ab\ncd", "a\r\nbc\rdef"):
+        for off in ((1, 1), (1, 5), (2, 3), (9, 1), (11, 12)):
+            src = Source(body, "n", off)
+            for p in range(len(body) + 1):
+                loc = src.get_location(p)
+                want = f"n:{loc.line + off[0] - 1}:{loc.column + (off[1] - 1 if loc.line == 1 else 0)}"
+                got = print_source_location(src, loc).split("\n")[0]
+                if got != want:
+                    return {"confirmed": True, "entry": "print_source_location(Source(body, 'n', location_offset), location)",
+                            "failure": {"body": body, "location_offset": off, "position": p,
+                                        "observed": got, "expected": want}}
+    return {"confirmed": False}
+
+
 def lift(model, req):
+    if "print_source_location" in str(req.get("target", "")):
+        return lift_offsets()
     if "located_error" in str(req.get("target", "")):
         return lift_located()
     if "Token.__copy__" in str(req.get("target", "")).replace(":", "."):
